@@ -4,8 +4,8 @@
    the given witness (each witness also replays on the implementation, see
    tools/harness/c12.py). *)
 From Coq Require Import ZArith QArith Qcanon List Bool Reals.
-From SVP Require Import Base.Num Base.Cplx Base.Poly Model.Bezier Model.Isect
-     Proofs.IsectAlg Proofs.IsectMachine Proofs.IsectR.
+From SVP Require Import Base.Num Base.Cplx Base.Poly Model.Bezier Model.BezierN Model.Isect
+     Proofs.Roots Proofs.IsectAlg Proofs.IsectMachine Proofs.IsectR.
 Import ListNotations.
 
 Section C12_field.
@@ -40,6 +40,20 @@ Section C12_field.
       leb N (zero N) (mul N s len) = true -> leb N (mul N s len) len = true ->
       In (t, s) (bl_select N len bez l0 l1 roots).
   Proof. exact (bezier_line_complete N OK). Qed.
+  (* REPAIRED polyroots (flag true, /repo 48a8a6b): nothing has to be assumed about
+     the de-duplication any more — a crossing parameter that is among the real roots
+     in [0,1] returned by the oracle, and is not close to an EARLIER one of them,
+     is reported *)
+  Theorem C12_bezier_line_complete_fixed :
+      (forall x y : K, eqb N x y = true <-> x = y) ->
+      forall rtol atol raw len bez l0 l1 r1 t r2 s,
+      deg123 bez -> len <> zero N -> cnorm2 N (csub N l1 l0) <> zero N ->
+      filter (in01 N) (map fst (filter (fun z => isclose N rtol atol (snd z) (zero N)) raw)) = r1 ++ t :: r2 ->
+      (forall y, In y r1 -> isclose N rtol atol y t = false) -> isclose N rtol atol t t = true ->
+      bezier_point N bez t = line_point N l0 l1 s ->
+      leb N (zero N) (mul N s len) = true -> leb N (mul N s len) len = true ->
+      In (t, s) (bl_select N len bez l0 l1 (polyroots01_of N true rtol atol raw)).
+  Proof. exact (bezier_line_complete_fixed N OK). Qed.
 End C12_field.
 
 Section C12_any.
@@ -52,42 +66,60 @@ Section C12_any.
   (* the de-duplication of polyroots is the identity when no two roots are
      "close" (|r1-r2| < atol + rtol |r2|): in general position nothing is lost *)
   Theorem C12_dedup_noclose : forall rtol atol roots,
-      (forall r1 r2, In (r1, r2) (pairs_of roots) -> isclose N rtol atol r1 r2 = false) ->
+      (forall r1 r2, In (r1, r2) (combinations2 roots) -> isclose N rtol atol r1 r2 = false) ->
       dedup_as_coded N rtol atol roots = roots.
   Proof. exact (dedup_noclose N). Qed.
+  (* the repaired de-duplication keeps every root that is not close to an earlier
+     one, exactly once (Proofs/Roots.v) *)
+  Theorem C12_dedup_fixed_keeps_isolated : forall rtol atol l1 x l2,
+      (forall y, In y l1 -> isclose N rtol atol y x = false) -> isclose N rtol atol x x = true ->
+      exists o1 o2, dedup N true rtol atol (l1 ++ x :: l2) = o1 ++ x :: o2 /\ ~ In x o1 /\ ~ In x o2.
+  Proof. exact (dedup_fixed_keeps_isolated N). Qed.
 
   (* subdivision, one level on which nothing is reported: no pair is skipped,
      every pair whose boxes intersect is replaced by its four children *)
-  Theorem C12_subdiv_complete_partial : forall bbox tol tol_deC bez1 k l out seen,
+  Theorem C12_subdiv_complete_partial : forall rm_fixed bbox tol tol_deC bez1 k l out seen,
       (forall p, In p l -> boxes_ok N bbox p = true -> small N bbox tol_deC p = false) ->
-      level N bbox tol tol_deC bez1 k l out seen
+      level N rm_fixed bbox tol tol_deC bez1 k l out seen
       = mkLS (flat_map (children N (npow N (half N) (k + 2))) (filter (boxes_ok N bbox) l)) out seen.
   Proof. exact (level_quiet N). Qed.
   (* ... and the FIRST pair of a level, when small with intersecting boxes, puts
      its point into the approximate solution set (reported, or within tol of an
      earlier report).  Later pairs of the same level may be skipped by the
      remove-while-iterating loop: C12_subdiv_skip_refuted. *)
-  Theorem C12_subdiv_head_reported_partial : forall bbox tol tol_deC bez1 k p r out seen,
+  Theorem C12_subdiv_head_reported_partial : forall rm_fixed bbox tol tol_deC bez1 k p r out seen,
       boxes_ok N bbox p = true -> small N bbox tol_deC p = true ->
-      let st := level N bbox tol tol_deC bez1 k (p :: r) out seen in
+      let st := level N rm_fixed bbox tol tol_deC bez1 k (p :: r) out seen in
       approx_mem N tol (bezier_point N bez1 (bt1 p)) seen = true
       \/ (In (bt1 p, bt2 p) (ls_out st) /\ In (bezier_point N bez1 (bt1 p)) (ls_seen st)).
   Proof. exact (level_head_reported N). Qed.
 
+  (* REPAIRED redundancy loop (rm_fixed = true): on ANY level, a pair whose boxes
+     intersect, that is not yet small and is not related to a reportable pair of
+     the level, is subdivided — nothing is skipped (contrast: C12_subdiv_skip_refuted) *)
+  Theorem C12_subdiv_no_skip_fixed : forall bbox tol tol_deC bez1 k l out seen t p,
+      nth_error l t = Some p -> boxes_ok N bbox p = true -> small N bbox tol_deC p = false ->
+      (forall j q, nth_error l j = Some q -> boxes_ok N bbox q = true -> small N bbox tol_deC q = true ->
+                   related N q p = false) ->
+      incl (children N (npow N (half N) (k + 2)) p)
+           (ls_new (level N true bbox tol tol_deC bez1 k l out seen)).
+  Proof. intros. eapply (level_fixed_no_skip N true); eauto. Qed.
+
   (* Path.intersect: nothing is lost before the joint de-duplication ... *)
-  Theorem C12_path_collect_complete : forall seg_isect p1 lens1 p2 lens2 pairs res s1 s2 l t1 t2,
-      collect N seg_isect p1 lens1 p2 lens2 pairs = IOk res ->
-      In (s1, s2) pairs -> seg_isect s1 s2 = IOk l -> In (t1, t2) l ->
-      In ((t2T N lens1 (index_of N p1 s1) t1, s1, t1), (t2T N lens2 (index_of N p2 s2) t2, s2, t2)) res.
+  Theorem C12_path_collect_complete : forall seg_isect idx_fixed p1 lens1 p2 lens2 pairs res i j s1 s2 l t1 t2,
+      collect N seg_isect idx_fixed p1 lens1 p2 lens2 pairs = IOk res ->
+      In ((i, s1), (j, s2)) pairs -> seg_isect s1 s2 = IOk l -> In (t1, t2) l ->
+      In ((t2T N lens1 (pos_of N idx_fixed p1 i s1) t1, s1, t1),
+          (t2T N lens2 (pos_of N idx_fixed p2 j s2) t2, s2, t2)) res.
   Proof. exact (collect_complete N). Qed.
   (* ... and the de-duplication removes nothing when the reported points are
      pairwise at least tol apart (crossings strictly inside segments, distinct) *)
-  Theorem C12_path_once : forall seg_isect seg_point tol p1 lens1 p2 lens2 raw,
+  Theorem C12_path_once : forall seg_isect seg_point tol idx_fixed p1 lens1 p2 lens2 raw,
       path_eqb N p1 p2 = false ->
-      collect N seg_isect p1 lens1 p2 lens2 (list_prod p1 p2) = IOk raw ->
+      collect N seg_isect idx_fixed p1 lens1 p2 lens2 (list_prod (enum p1) (enum p2)) = IOk raw ->
       ForallOrdPairs (fun a b => far N tol (seg_point (snd (fst (fst b))) (snd (fst b)))
                                            (seg_point (snd (fst (fst a))) (snd (fst a)))) raw ->
-      path_intersect N seg_isect seg_point tol p1 lens1 p2 lens2 = IOk raw.
+      path_intersect N seg_isect seg_point tol idx_fixed p1 lens1 p2 lens2 = IOk raw.
   Proof. exact (path_intersect_keeps N). Qed.
 End C12_any.
 
@@ -132,10 +164,23 @@ Definition qlist_eqb (a b : list Qc) : bool :=
    combinations order, so the ROOT of index 3 — the simple, well separated root
    0.1 — is dropped, and both near-duplicates stay *)
 Example C12_dedup_as_coded_refuted :
-  qlist_eqb (dedup_as_coded NumQ (q 1 100000) (q 1 100000000)
+  qlist_eqb (dedup NumQ false (q 1 100000) (q 1 100000000)
                [q 9 10; q 1 2; (q 1 2 + q 1 1000000000)%Qc; q 1 10])
             [q 9 10; q 1 2; (q 1 2 + q 1 1000000000)%Qc] = true.
 Proof. vm_compute. reflexivity. Qed.
+(* the repaired variant on the same list: the later member of the close pair goes *)
+Example C12_dedup_fixed_example :
+  qlist_eqb (dedup NumQ true (q 1 100000) (q 1 100000000)
+               [q 9 10; q 1 2; (q 1 2 + q 1 1000000000)%Qc; q 1 10])
+            [q 9 10; q 1 2; q 1 10] = true.
+Proof. vm_compute. reflexivity. Qed.
+(* the probe the harnesses use to tell the variants apart *)
+Example C12_dedup_probe :
+  qlist_eqb (dedup NumQ false (q 1 100000) (q 1 100000000) [q 9 10; q 6 10; q 600001 1000000; q 4 10; q 2 10])
+            [q 9 10; q 6 10; q 600001 1000000; q 4 10] = true
+  /\ qlist_eqb (dedup NumQ true (q 1 100000) (q 1 100000000) [q 9 10; q 6 10; q 600001 1000000; q 4 10; q 2 10])
+               [q 9 10; q 6 10; q 4 10; q 2 10] = true.
+Proof. vm_compute. split; reflexivity. Qed.
 
 (* zero-width rule: the horizontal segment y = 0 given as a quadratic and a
    parabola through (1/2, 0) (both at parameter 1/4): the first pair is pruned
@@ -144,8 +189,9 @@ Definition flatq := [zc 0 0; zc 1 0; zc 2 0].
 Definition archq := [zc 0 (-3); zc 1 5; zc 2 (-3)].
 Example C12_prune_zero_width_refuted :
   ceqb NumQ (bezier_point NumQ flatq (q 1 4)) (bezier_point NumQ archq (q 1 4)) = true
-  /\ bezier_intersections NumQ (bbox_quad NumQ) tol12 tol12 flatq 60 archq = IOk [].
-Proof. vm_compute. split; reflexivity. Qed.
+  /\ bezier_intersections NumQ false (bbox_quad NumQ) tol12 tol12 flatq 60 archq = IOk []
+  /\ bezier_intersections NumQ true (bbox_quad NumQ) tol12 tol12 flatq 60 archq = IOk [].
+Proof. vm_compute. repeat split; reflexivity. Qed.
 
 (* remove-while-iterating: two parabolas that cross at t1 = t2 = 1/3 (point
    12+53i) and at t1 = t2 = 2/3 (point 24+50i), both transversally.  The machine
@@ -157,10 +203,17 @@ Definition para2 := [zc 0 22; zc 18 94; zc 36 13].
 Example C12_subdiv_skip_refuted :
   ceqb NumQ (bezier_point NumQ para1 (q 1 3)) (bezier_point NumQ para2 (q 1 3)) = true
   /\ ceqb NumQ (bezier_point NumQ para1 (q 2 3)) (bezier_point NumQ para2 (q 2 3)) = true
-  /\ match bezier_intersections NumQ (bbox_quad NumQ) tol12 tol12 para1 60 para2 with
+  /\ match bezier_intersections NumQ false (bbox_quad NumQ) tol12 tol12 para1 60 para2 with
      | IOk [(t1, t2)] => Qc_ltb t1 (q 1 2) && Qc_ltb t2 (q 1 2)
      | _ => false end = true.
 Proof. vm_compute. repeat split; reflexivity. Qed.
+
+(* the repaired loop (rm_fixed = true) on the same pair: both crossings *)
+Example C12_subdiv_skip_fixed :
+  match bezier_intersections NumQ true (bbox_quad NumQ) tol12 tol12 para1 60 para2 with
+  | IOk [(t1, t2); (u1, u2)] => Qc_ltb t1 (q 1 2) && Qc_ltb (q 1 2) u1 && Qc_ltb t2 (q 1 2) && Qc_ltb (q 1 2) u2
+  | _ => false end = true.
+Proof. vm_compute. reflexivity. Qed.
 
 (* Path.intersect, default tol: the triangle path that traverses its first edge
    twice crosses the probe twice (T = 1/15 and T = 13/15); one entry is returned *)
@@ -174,11 +227,15 @@ Definition tri_twice : list (seg Qc) :=
 Definition tri_lens : list Qc := [q 1 5; q 4 15; q 1 3; q 1 5].
 Definition probe : list (seg Qc) := [SLine (zc 1 (-1)) (zc 1 1)].
 Example C12_path_duplicate_segment_refuted :
-  imap (@length _) (path_intersect NumQ isect_lines lines_point tol12 tri_twice tri_lens probe [q 1 1])
+  imap (@length _) (path_intersect NumQ isect_lines lines_point tol12 false tri_twice tri_lens probe [q 1 1])
   = IOk 1%nat
+  (* enumerate instead of index() does not change this: the two entries have the same
+     POINT, so the joint de-duplication still removes the second *)
+  /\ imap (@length _) (path_intersect NumQ isect_lines lines_point tol12 true tri_twice tri_lens probe [q 1 1])
+     = IOk 1%nat
   /\ ceqb NumQ (lines_point (nth 3 tri_twice (SLine (zc 0 0) (zc 0 0))) (q 1 3))
                (lines_point (nth 0 probe (SLine (zc 0 0) (zc 0 0))) (q 1 2)) = true.
-Proof. vm_compute. split; reflexivity. Qed.
+Proof. vm_compute. repeat split; reflexivity. Qed.
 
 (* exact crossing counts (Sturm / Tarski query in exact rationals), non-vacuity:
    the cubic (0,-1) (1,3) (2,-3) (3,1) meets the x-axis three times; restricted
@@ -192,6 +249,9 @@ Proof. vm_compute. reflexivity. Qed.
 Print Assumptions C12_line_line_complete.
 Print Assumptions C12_crossing_is_root.
 Print Assumptions C12_bezier_line_complete.
+Print Assumptions C12_bezier_line_complete_fixed.
+Print Assumptions C12_dedup_fixed_keeps_isolated.
+Print Assumptions C12_subdiv_no_skip_fixed.
 Print Assumptions C12_bezier_line_once.
 Print Assumptions C12_dedup_noclose.
 Print Assumptions C12_subdiv_complete_partial.
@@ -204,4 +264,7 @@ Print Assumptions C12_sign_change_root.
 Print Assumptions C12_dedup_as_coded_refuted.
 Print Assumptions C12_prune_zero_width_refuted.
 Print Assumptions C12_subdiv_skip_refuted.
+Print Assumptions C12_subdiv_skip_fixed.
+Print Assumptions C12_dedup_fixed_example.
+Print Assumptions C12_dedup_probe.
 Print Assumptions C12_path_duplicate_segment_refuted.
